@@ -67,7 +67,7 @@ PROP_ID = 'C20'
 LEVEL = 'fault_enumeration'
 # budget = scenarios; each carries KILLS_PER_SCENARIO kill points (quick) or
 # all of them (thorough)
-BUDGET = {'quick': 64, 'thorough': 256}
+BUDGET = {'quick': 64, 'thorough': 192}
 KILLS_PER_SCENARIO = 12
 XFORK_ONE_IN = {'quick': 6, 'thorough': 3}
 EXHAUSTIVE = {'quick': False, 'thorough': False}
